@@ -879,6 +879,9 @@ pub(crate) mod convert {
     use crate::read::{self, Reader};
     use crate::write::{ConvertDebugInfoRef, ConvertError, ConvertResult};
 
+    /// The maximum nesting depth of `DW_OP_entry_value` that is converted.
+    pub(crate) const MAX_ENTRY_VALUE_DEPTH: usize = 64;
+
     impl Expression {
         /// Create an expression from the input expression.
         pub(crate) fn from<R: Reader<Offset = usize>>(
@@ -887,6 +890,19 @@ pub(crate) mod convert {
             unit: Option<read::UnitRef<'_, R>>,
             convert_address: &dyn Fn(u64) -> Option<Address>,
             refs: &dyn ConvertDebugInfoRef,
+        ) -> ConvertResult<Expression> {
+            Self::from_nested(from_expression, encoding, unit, convert_address, refs, 0)
+        }
+
+        /// Create an expression from the input expression, which is nested in
+        /// `depth` `DW_OP_entry_value` operations.
+        fn from_nested<R: Reader<Offset = usize>>(
+            from_expression: read::Expression<R>,
+            encoding: Encoding,
+            unit: Option<read::UnitRef<'_, R>>,
+            convert_address: &dyn Fn(u64) -> Option<Address>,
+            refs: &dyn ConvertDebugInfoRef,
+            depth: usize,
         ) -> ConvertResult<Expression> {
             // Calculate offsets for use in branch/skip operations.
             let mut offsets = Vec::new();
@@ -1017,12 +1033,17 @@ pub(crate) mod convert {
                         Operation::ImplicitPointer { entry, byte_offset }
                     }
                     read::Operation::EntryValue { expression } => {
-                        let expression = Expression::from(
+                        // The conversion and the writer recurse for each nested expression.
+                        if depth >= MAX_ENTRY_VALUE_DEPTH {
+                            return Err(ConvertError::UnsupportedOperation);
+                        }
+                        let expression = Expression::from_nested(
                             read::Expression(expression),
                             encoding,
                             unit,
                             convert_address,
                             refs,
+                            depth + 1,
                         )?;
                         Operation::EntryValue(expression)
                     }
